@@ -41,6 +41,46 @@ SEEDS = {
            "scale configured with type code 10082 (R) or 10085 (S)"),
  "C19-1": ("C19", "end-segment trimming drops the final chunk only if more than its size is to be trimmed (>= became >)",
            "window ending exactly at the start of a truncated final chunk: that chunk is fetched although it does not overlap the request"),
+ "C01-2": ("C01", "String.read_values decodes the whole string block once and slices the decoded text with the stored byte offsets",
+           "a string channel chunk where a value with a multi-byte UTF-8 character is followed by another string"),
+ "C02-2": ("C02", "ObjectListKey hashes and compares the frozenset of paths (order ignored)",
+           "a later segment with a new object list holding the same paths in a different order, channels with different chunk lengths, read lazily (the cached path index of the earlier order is reused)"),
+ "C03-2": ("C03", "TimestampDataReceiver.append_data: one positional structured assignment (same mechanism as C03-1, found independently)",
+           "big-endian timestamp channel read with raw_timestamps=True through a receiver path"),
+ "C04-2": ("C04", "_read_at_index keeps only the cached chunk's offset and drops the lower-bound test",
+           "lazy integer indexing that goes back to an index before the cached chunk: wrong value (negative index into the cache) or spurious IndexError"),
+ "C05-2": ("C05", "_read_data_chunks re-seeks to the next chunk before the yield instead of after it",
+           "any other read between two chunks of a partially consumed TdmsFile.data_chunks() stream"),
+ "C06-2": ("C06", "get_daqmx_final_chunk_lengths without the early exit (same mechanism as C11-1, found independently for C06)",
+           "truncated DAQmx chunk cut mid-row of a wider buffer followed by a narrower buffer"),
+ "C07-2": ("C07", "TdmsWriter sets kTocNewObjList only when the SET of paths differs from the previous segment",
+           "two consecutive segments of one session with the same channels in a different order: the reader keeps the old order and the channels' data is swapped"),
+ "C08-2": ("C08", "the index-file segment is built from the caller's object list instead of the sorted, parent-completed one",
+           "index_file requested and a segment relying on the writer to add or reorder root/group objects"),
+ "C09-2": ("C09", "_read_lead_in clamps the segment end to the data file size only when not reading from an index stream",
+           "data file shorter than its last lead-in claims, complete index beside it"),
+ "C10-2": ("C10", "defragment writes a group object only together with its first channel",
+           "a group without channels (and its properties) disappears from the copy"),
+ "C11-2": ("C11", "get_daqmx_final_chunk_lengths without the early exit (as C11-1 / C06-2)",
+           "truncated DAQmx chunk, buffers of different width"),
+ "C12-2": ("C12", "TimestampDataReceiver.append_data positional structured assignment (as C03-1)",
+           "big-endian timestamp channel read raw, or passed through defragment"),
+ "C13-2": ("C13", "LinearScaling.scale no longer converts its input to float64",
+           "float32 raw data: the formula is evaluated in single precision (and the dtype is float32)"),
+ "C14-2": ("C14", "NumpyDataReceiver.append_data adopts a chunk array that fills the whole receiver instead of copying it",
+           "big-endian segment, unscaled numeric channel, request satisfied by exactly one chunk: dtype '>i4' vs declared '<i4'"),
+ "C15-2": ("C15", "TimestampDataReceiver.append_data positional structured assignment (as C03-1)",
+           "big-endian segment, raw_timestamps=True"),
+ "C16-2": ("C16", "TdmsFile._read_file classifies objects by truthiness of the decoded names",
+           "a group or channel whose name is the empty string"),
+ "C17-2": ("C17", "StrainScaling.scale uses astype(float64, copy=False) before its in-place arithmetic",
+           "float64 raw data read eagerly and scaled more than once"),
+ "C18-2": ("C18", "type K exponential term skipped by one np.all(temperature < 0) decision for the whole array",
+           "a single array mixing negative and non-negative temperatures (type K, temperature -> voltage)"),
+ "C19-2": ("C19", "read_channel_chunk_for_index no longer limits the segment read to one chunk",
+           "integer index into a multi-chunk interleaved segment (the interleaved reader fetches all remaining chunks at once)"),
+ "C20-2": ("C20", "read_metadata closes the index stream whether or not the reader opened it (as C20-1)",
+           "caller-supplied index stream"),
  "C20-1": ("C20", "read_metadata closes the index stream whether or not the reader opened it",
            "a caller-supplied stream holding a .tdms_index (TDSh) file"),
 }
